@@ -147,6 +147,7 @@ func runC02(seed int64, n int, replay string, e *emitter) {
 			cmds = eGenDB(r)
 			c.Query = ints(eGenQuery(r, cmds))
 			c.Opts = eGenOpts(r, len(cmds), cmds)
+			eBoostFromQuery(r, fromInts(c.Query), &c.Opts)
 		}
 		c02Run(&c, cmds, dir, shipped, shipped2)
 		e.emit(c)
